@@ -201,7 +201,9 @@ def injected(kind, with_code):
                 'representation': Obj('Representation', {'timescale': z3.Int('ts'), 'segment_duration': z3.Int('sd')}),
                 '__facts__': z3.And(c1, c2)}
     # the requested wall-clock time on the availability start day, in microseconds since availabilityStartTime
-    seg = '(ts * (pos_sec - ast_sec)) // sd' if kind == 'time' else 'pos'
+    # (x // sd written without a division where sd == 1: the code has that special case too, and a division by a variable the
+    #  path fixes to 1 is exactly what z3's nonlinear arithmetic is unstable on)
+    seg = '((ts * (pos_sec - ast_sec)) if sd == 1 else (ts * (pos_sec - ast_sec)) // sd)' if kind == 'time' else 'pos'
     listed = ('True' if kind == 'number' else
               '(86400000000 * ast_day + 1000000 * pos_sec + ast_usec >= now_us - 1000000 * depth)')
     text = ("drops_are(result, code, '=', {seg})" if with_code else "drops_are(result, {seg})").format(seg=seg)
